@@ -115,8 +115,11 @@ def main(argv=None):
     try:
         ctx, rep, mod = run_check(prop, a.tier, a.root)
         extra = {}
-        if a.tier == "thorough" and hasattr(mod, "thorough"):
-            extra = mod.thorough(ctx, rep, seed) or {}
+        if a.tier == "thorough":
+            if hasattr(mod, "thorough"):
+                extra = mod.thorough(ctx, rep, seed) or {}
+            from .audit.runner import audit
+            extra.update(audit(prop, a.root, seed=seed))
     except AnchorError as e:
         print(f"ANALYSIS-ERROR property={prop} {e}")
         if not a.no_evidence:
@@ -146,7 +149,16 @@ def main(argv=None):
             print(f"  {i.status:9s} {i.clause:4s} {i.rule:18s} {i.construct}  {i.loc}  {i.detail}")
     for i, k in old:
         print(f"KNOWN-FINDING: property={prop} {i.clause} {i.rule} {i.construct} @ {i.loc}: {k.get('what', i.detail)}")
-    audit_bad = (extra.get("audit", {}) if a.tier == "thorough" else {}).get("checker_defects", 0)
+    au = extra.get("audit", {}) if a.tier == "thorough" else {}
+    audit_bad = au.get("checker_defects", 0)
+    if au.get("variants"):
+        print(f"[{prop}] sensitivity audit: {au['breaking']['flagged']}/{au['breaking']['run']} breaking variants flagged, "
+              f"{au['equivalent']['silent']}/{au['equivalent']['run']} equivalence variants silent, "
+              f"{len(au.get('not_applicable', []))} not applicable")
+        for m in au["breaking"]["missed"]:
+            print(f"    checker defect: breaking variant not flagged: {m}")
+        for m in au["equivalent"]["false_alarms"]:
+            print(f"    checker defect: equivalence variant flagged: {m['name']} {m['new'] or m['error']}")
     rc = 0
     if a.replay:
         with open(a.replay) as fh:
